@@ -329,7 +329,9 @@ func (d *Dynamic) insertChildren(ctx vxfw.DrawContext, p *vxfw.Surface, ah int) 
 		ss := vxfw.NewSubSurface(colOffset, ah, s)
 		p.Children = slices.Insert(p.Children, 0, ss)
 
-		if d.scroll.top == 0 {
+		// The widget we just inserted is the new top widget when it is
+		// the first one or when it reaches the top of the viewport
+		if d.scroll.top == 0 || ah <= 0 {
 			break
 		}
 
